@@ -242,7 +242,7 @@ def gen_noise(rng, same_line):
 
 
 def gen_case(rng, tier, flavour=None):
-    flavour = flavour or rng.choice(["mixed"] * 5 + ["valid", "valid", "rejects", "big", "addtime", "cost"])
+    flavour = flavour or rng.choice(["mixed"] * 20 + ["valid"] * 8 + ["rejects"] * 4 + ["addtime"] * 4 + ["cost"] * 3 + ["big"])
     ctor = {"add_time": True}
     if flavour == "addtime" or (flavour == "mixed" and rng.random() < 0.1):
         ctor["add_time"] = False
@@ -250,6 +250,7 @@ def gen_case(rng, tier, flavour=None):
         ctor["instance"] = [rng.choice(["ml.m5.large", "ml.p3.2xlarge", "ml.c5.xlarge", "ml.nonexistent"]), rng.choice([1, 2, 8])]
     ops = []
     n = rng.randint(1, 6 if tier == "quick" else 12)
+    big_at = rng.randrange(n) if flavour == "big" else -1  # one report around the size limit (costly on the wire)
     depth = rng.choice([0, 1, 2, 3])
     backwards = rng.random() < 0.1
     chunk_open = False  # the current chunk does not end with a newline
@@ -282,7 +283,7 @@ def gen_case(rng, tier, flavour=None):
         elif kind == "unser":
             j = rng.randrange(len(kw))
             kw[j][1] = poison(rng, kw[j][1])
-        if flavour == "big" and rng.random() < 0.5:
+        if i == big_at:
             # around the size limit: payload length near 50000 - getsizeof("")
             target = 50000 - sys.getsizeof("") + rng.choice([-400, -120, -3, -2, -1, 0, 1, 2, 50, 3000])
             kw = [["blob", {"t": "str", "v": "a" * max(0, target - 160)}]]
@@ -296,7 +297,7 @@ def gen_case(rng, tier, flavour=None):
         if rs.MARKER not in pending + s:
             ops.append({"op": "noise", "text": s})
             pending += s
-    return {"ctor": ctor, "ops": ops, "retrieve": ["local", "keepends", "text"], "clean": True,
+    return {"ctor": ctor, "ops": ops, "retrieve": ["local"] if flavour == "big" else ["local", "keepends", "text"], "clean": True,
             "t0": float(2 ** 30 + rng.randint(0, 10 ** 6)).hex()}
 
 
@@ -352,7 +353,7 @@ def corpus():
     for delta in (-1, 0):
         n = 50000 - sys.getsizeof("") + delta
         cases.append(dict(base, ops=[{"op": "report", "kw": [["blob", V("str", "a" * (n - 120))]]},
-                                     {"op": "report", "kw": [["x", V("int", "1")]]}], pad_to=n))
+                                     {"op": "report", "kw": [["x", V("int", "1")]]}], pad_to=n, retrieve=["local"]))
     # SageMaker cost entry
     cases.append(dict(base, ctor={"add_time": True, "instance": ["ml.m5.large", 2]},
                       ops=[{"op": "report", "kw": [["loss", V("float", (0.25).hex())]], "dperf": 700}]))
